@@ -18,7 +18,7 @@ import shutil
 import numpy as np
 
 from . import tlcrun
-from .core import Machinery
+from .core import Machinery, names_in
 from .universe import flodym, Dimension, DimensionSet
 
 UNIT = 2.0 ** -8
@@ -220,8 +220,10 @@ class Program:
         tol_arg = TOL if tolmode == "explicit" else (None if tolmode == "default" else self.rnd.choice([0, 0.0]))
         raised, msgs = self.logged(lambda: self.mfa.check_mass_balance(tolerance=tol_arg, raise_error=raise_error))
         text = raised if raised is not None else " ".join(msgs)
-        failing = re.findall(r"(sysenv|P\d+) \(max error", text or "")
         outcome = "fail" if (raised is not None or msgs) else "ok"
+        failing = names_in(text, self.procs)
+        if outcome == "fail" and not failing:
+            failing = ["?"]         # the report names no process at all: the statement does not demand names, only the verdict counts
         self.events.append({"op": "check_mb", "obj": "", "id": 0, "pos": 0, "val": [0, 0, 0], "tol": tolmode, "raise": raise_error,
                             "outcome": outcome, "failing": failing, "exc": [], "flagged": []})
 
@@ -237,10 +239,10 @@ class Program:
             raised, msgs = self.logged(lambda: self.mfa.check_flows(raise_error=raise_error))
         flagged = []
         for m in msgs:
-            g = re.search(r"(?:NaN values found in|Negative value in) flow (.*)!", m)
-            if g:
-                flagged.append(g.group(1).split("!")[0])
+            flagged += names_in(m, names)
         outcome = "fail" if (raised is not None or msgs) else "ok"
+        if msgs and not flagged:
+            flagged = ["?"]         # warnings that name no flow: only the verdict counts
         self.events.append({"op": "check_flows", "obj": "", "id": 0, "pos": 0, "val": [0, 0, 0], "tol": "", "raise": raise_error,
                             "outcome": outcome, "failing": [], "exc": exc, "flagged": sorted(set(flagged))})
 
